@@ -87,24 +87,20 @@ theorem C12_cleanup_partial (w : Worker) (a : Addr) :
       exact ⟨t.owned, ⟨t, ⟨ht, hd⟩, rfl⟩, hm⟩
     simp [this] at hp
 
-/-- Full clean-up at quiescence is **false of the code**: a child whose SUBMIT_BATCH reaches
-    its worker after the broadcast CANCEL of its ancestor is put into `_tasks` and never
-    removed (`_get_next_ready_task` `continue`s). The system is idle, the compilation was
-    cancelled, the worker still holds the task `[0,0,0]`. -/
-theorem C12_leak_witness :
+/-- regression (formerly `C12_leak_witness`, fixed by dfc4d06): the run in which the child's
+    SUBMIT_BATCH reaches the worker after the CANCEL of its ancestor now ends with an empty task
+    table -/
+example :
     let n := (Net.initFlat leakTable false 1 1).exec leakRun
-    n.quiescent = true
-    ∧ n.workers.map (fun w => (w.tasks.map (·.tag), w.cancelled)) = [([[0, 0, 0]], [⟨-1, 0, 0⟩])]
-    ∧ n.server.boxes = [] := by
+    n.quiescent = true ∧ n.workers.map (fun w => (w.tasks.length, w.delayed.length, w.boxes.length)) = [(0, 0, 0)] := by
   decide +kernel
 
-/-- The completion-time clean-up **skips every second open future** (it iterates
-    `owned_mailboxes` while `Worker.cancel` removes from it): the second child is not
-    cancelled, runs, and its mailbox with its result stays on the worker for ever. -/
-theorem C12_orphan_witness :
-    let n := (Net.initFlat orphanTable false 1 1).exec orphanRun
-    n.quiescent = true
-    ∧ n.workers.map (fun w => (w.tasks.length, w.boxes.map (fun p => (p.1, p.2.num)))) = [(0, [(1, 1)])] := by
+/-- regression (formerly `C12_orphan_witness`, fixed by 6ca9fa1): a root that returns with two
+    open futures cancels both; no mailbox is left -/
+example :
+    let n := (Net.initFlat orphanTable false 1 1).exec (orphanRun ++ [.deliver (.wrk 0) .server [] [] false,
+      .deliver .server (.wrk 0) [] [] false, .step 0, .deliver (.wrk 0) .server [] [] false])
+    n.workers.map (fun w => (w.tasks.length, w.boxes.length)) = [(0, 0)] := by
   decide +kernel
 
 end BqVerif.Runtime
